@@ -192,6 +192,8 @@ pub enum CallErr {
 pub struct Call {
     /// what `#1`.. were bound to (`pstack`)
     pub args: Vec<Vec<Tok>>,
+    /// per argument: §400 removed a pair of outer braces (the argument was written as one group)
+    pub arg_braced: Vec<bool>,
     /// the replacement text with the arguments substituted
     pub expansion: Vec<Tok>,
     /// number of tokens of `input` that the call removed
@@ -231,6 +233,7 @@ pub fn macro_call(def: &MacroDef, input: &[Tok], long: bool) -> Result<Call, Cal
     let mut facts = Facts::default();
     let mut pos = 0usize;
     let mut pstack: Vec<Vec<Tok>> = vec![];
+    let mut arg_braced: Vec<bool> = vec![];
     let mut r = 0usize; // §391 r := link(ref_count)
     let par = Tok::Cs("par");
     if let Some(PItem::Tok(t)) = params.iter().rev().nth(1) {
@@ -356,7 +359,9 @@ pub fn macro_call(def: &MacroDef, input: &[Tok], long: bool) -> Result<Call, Cal
             // found: if s<>null then §400 Tidy up the parameter just scanned, and tuck it away
             if let Some(s0) = s {
                 let delimited = !params[s0].is_match_or_end();
-                if m == 1 && p.last().map(|t| t.is_brace()).unwrap_or(false) {
+                let strip = m == 1 && p.last().map(|t| t.is_brace()).unwrap_or(false);
+                arg_braced.push(strip);
+                if strip {
                     p.pop();
                     p.remove(0);
                     if p.is_empty() {
@@ -394,7 +399,7 @@ pub fn macro_call(def: &MacroDef, input: &[Tok], long: bool) -> Result<Call, Cal
             BItem::Out(n) => expansion.extend_from_slice(&pstack[*n as usize - 1]),
         }
     }
-    Ok(Call { args: pstack, expansion, consumed: pos, facts })
+    Ok(Call { args: pstack, arg_braced, expansion, consumed: pos, facts })
 }
 
 // ------------------------------------------------------------------------------------------------
